@@ -1054,7 +1054,7 @@ def _replaced_flag(b, m):
     return None
 
 
-@rule("R14.3", 5, "standard input is read at most once: the only stdin() site is dominated by a set-once bool guard whose set edge exits 1", ["C14"])
+@rule("R14.3", 5, "standard input is read at most once: the only stdin() site is dominated by a set-once bool guard whose set edge exits 1", ["C14", "C15"])
 def r14_3(ctx):
     v = cliview.view(ctx.facts)
     sup, ps = v.sup, v.ps
@@ -1223,6 +1223,12 @@ def r14_4(ctx):
         vk = _variant_key(t)
         key = f"{f['name']}@{vk}"
         tr = strace(sup, n, t["args"][1])
+        from_lock = bool(tr.origin and tr.origin[0] == "call" and (fn_of(tr.origin[2]) or {}).get("def") == "std::io::Stdin::lock")
+        if f["name"] != "translate_slice" and "Stdin" not in vk and "File" not in vk:
+            # the call sits in a helper generic over the reader: one instance per calling context, told apart by
+            # what the reader is there
+            vk = f"{vk}:{'Stdin' if from_lock else 'File'}"
+            key = f"{f['name']}@{vk}"
         if f["name"] == "translate_slice":
             ok = any(s[0] == "downcast" and s[1] == vocab.bin_vocab(ctx.facts)["opened"]["mmap"] for s in tr.steps) and all(s[0] in ("use", "ref", "deref", "field", "downcast", "enter_caller", "agg_field") or (s[0] == "call" and ("Deref" in s[1] or s[1] == "std::ops::Try::branch")) for s in tr.steps)
             ctx.ob(f"{key}:map-passed-as-is", ok, v.site(n), "the mapping is passed as a slice through Deref only" if ok else f"slice argument is transformed: {tr.kinds()}")
